@@ -12,6 +12,7 @@ mod c13;
 mod c17;
 mod c18;
 mod c19;
+mod c20;
 
 use common::*;
 use std::io::{BufRead, BufWriter, Write};
@@ -36,6 +37,7 @@ fn props() -> Vec<Prop> {
     Prop { id: "C17", exec: c17::exec, classify: no_class, gen: c17::gen },
     Prop { id: "C18", exec: c18::exec, classify: no_class, gen: c18::gen },
     Prop { id: "C19", exec: c19::exec, classify: no_class, gen: c19::gen },
+    Prop { id: "C20", exec: c20::exec, classify: no_class, gen: c20::gen },
   ]
 }
 
